@@ -167,6 +167,14 @@ def worker_main(pid, tier, k, n, seed):
     os._exit(0)
 
 
+def _rm_scratch(ctx):
+    try:
+        import shutil
+        shutil.rmtree(ctx.scratch, ignore_errors=True)
+    except Exception:
+        pass
+
+
 def replay_main(pid, path):
     prop = load_prop(pid)
     d = json.load(open(path))
@@ -180,13 +188,16 @@ def replay_main(pid, path):
     except Violation as v:
         print("REPLAY-FAIL property=%s oracle=%s %s" % (pid, v.oracle, v.msg[:1500]))
         sys.stdout.flush()
+        _rm_scratch(ctx)
         os._exit(1)
     except Discard as dd:
         print("REPLAY-DISCARD %s" % dd.why)
         sys.stdout.flush()
+        _rm_scratch(ctx)
         os._exit(0)
     print("REPLAY-PASS")
     sys.stdout.flush()
+    _rm_scratch(ctx)
     os._exit(0)
 
 
